@@ -114,6 +114,8 @@ func getSwapOutSenderStates() States {
 			Events: Events{
 				Event_ActionFailed:    State_SendCancel,
 				Event_ActionSucceeded: State_SwapOutSender_SendCoopClose,
+				// The claim invoice turned out to be paid: claim instead.
+				Event_OnClaimInvoicePaid: State_SwapOutSender_ClaimSwap,
 			},
 		},
 		State_SwapOutSender_SendCoopClose: {
